@@ -10,6 +10,19 @@ use revm::{db::InMemoryDB, Evm};
 
 pub fn exec_line(line: &str) -> String {
     let t: Vec<&str> = line.split(' ').collect();
+    if t.len() == 6 && t[0] == "activation" && (t[1] == "reusepre" || t[1] == "reuseop") {
+        // activation reusepre|reuseop <spec_a> <spec_b> <addr|opcode> <via_builder 0|1>
+        let (Some(sa), Some(sb)) = (t[2].parse::<u8>().ok().and_then(SpecId::try_from_u8), t[3].parse::<u8>().ok().and_then(SpecId::try_from_u8)) else { return "bad-op".into() };
+        let Ok(x) = t[4].parse::<u64>() else { return "bad-op".into() };
+        let vb = t[5] == "1";
+        let pre = t[1] == "reusepre";
+        if !pre && x > 255 { return "bad-op".into(); }
+        return guarded(move || {
+            let (to, code) = if pre { (revm::precompile::u64_to_address(x), None) } else { (Address::with_last_byte(0x77), Some(code_for(x as u8))) };
+            let (reused, fresh) = reused_call(sa, sb, to, code, vb);
+            format!("same={}", (reused == fresh) as u8)
+        });
+    }
     if t.len() != 4 || t[0] != "activation" {
         return "bad-op".into();
     }
@@ -52,14 +65,45 @@ pub fn gen() -> Vec<String> {
             v.push(format!("activation pre {} {}", s as u8, a));
         }
     }
+    // one Evm reused across an in-place hardfork switch: every pair of specs that differ in their precompile set
+    // or opcode set, both directions, both ways of switching
+    let specs = all_specs();
+    for (i, &a) in specs.iter().enumerate() {
+        for (j, &b) in specs.iter().enumerate() {
+            if i == j { continue; }
+            let pa = Precompiles::new(PrecompileSpecId::from_spec_id(a));
+            let pb = Precompiles::new(PrecompileSpecId::from_spec_id(b));
+            for x in 1u64..=0x12 {
+                let addr = revm::precompile::u64_to_address(x);
+                if pa.contains(&addr) != pb.contains(&addr) {
+                    v.push(format!("activation reusepre {} {} {} {}", a as u8, b as u8, x, (i + j) % 2));
+                }
+            }
+        }
+    }
+    // opcode gates: neighbours in fork order (each activation boundary is crossed in both directions)
+    for w in specs.windows(2) {
+        for (a, b) in [(w[0], w[1]), (w[1], w[0])] {
+            for op in 0u16..=255 {
+                if gate_of(op as u8, a) != gate_of(op as u8, b) {
+                    v.push(format!("activation reuseop {} {} {} {}", a as u8, b as u8, op, op % 2));
+                }
+            }
+        }
+    }
     v
+}
+
+fn gate_of(op: u8, spec: SpecId) -> bool {
+    let (c, _) = op_status(op, spec);
+    c == 1 || c == 2 || c == 3 || c == 5
 }
 
 pub fn run(_seed: u64, _n: usize, replay: Option<Vec<String>>, out: &mut Out) {
     let lines = replay.unwrap_or_else(gen);
     for l in lines {
         let r = exec_line(&l);
-        out.count(if l.starts_with("activation op") { "opcode-probes" } else { "precompile-probes" });
+        out.count(if l.starts_with("activation op") { "opcode-probes" } else if l.starts_with("activation reuse") { "reused-evm-probes" } else { "precompile-probes" });
         out.push(l, r);
     }
 }
